@@ -43,7 +43,8 @@ PROPS = {
         "technique": "property-based testing (rapid): stored-field / DocID / DocNumbers round trip vs. reference model, all early-stop points enumerated per document",
         "level_text": "Randomised exploration with shrinking against a reference model; early-stop points and beyond-Count numbers are enumerated for every generated document.",
         "level_note": "Trusts the reference model and the stub documents; visitor arguments are copied inside the callback (C11 covers their stability).",
-        "stages": [rapid_stage("stored", "TestC02", 400, 2500)],
+        "stages": [rapid_stage("stored", "TestC02", 400, 2500),
+                   {"name": "stored-fixed", "test": "TestC02Fixed", "tags": "verif", "quick": {"shards": 1, "timeout": 300}, "thorough": {"shards": 1, "timeout": 600}}],
     },
     "C03": {
         "level": "exploration",
@@ -367,3 +368,12 @@ RULE_ADDENDA_7 = {
 }
 for _k, _v in RULE_ADDENDA_7.items():
     PROPS[_k]["rule"] += "; added after the seventh round: " + _v
+
+RULE_ADDENDA_8 = {
+    "C02": "a deterministic batch (stored-fixed) with two heavy stored records: 40 values with array positions next to 3 MiB of incompressible data, and 4200 values next to 20 KiB (record headers with 2+4 and 3+3 length bytes), in memory and re-opened",
+    "C11": "half of the stress merges are followed by a second-generation merge of their own output (byte-copying path over single-hit entries), concurrently in all goroutines",
+    "C12": "for every term with >= 2 pairs two iterators are asked of ONE list without preallocation: the first is read once, the second drained, the first continued - both must yield the whole set",
+    "C17": "every merge case also runs with EVERY document deleted (a merge without survivors): fault-free, then cut at offsets {0, 1, 10, size-52, size-1}",
+}
+for _k, _v in RULE_ADDENDA_8.items():
+    PROPS[_k]["rule"] += "; added after the (partial) eighth round: " + _v
